@@ -224,6 +224,18 @@ func main() {
 		warm()
 		return
 	}
+	if os.Args[1] == "build" { // development aid: vcheck build <dir> [plain|race]
+		variant := ""
+		if len(os.Args) > 3 {
+			variant = os.Args[3]
+		}
+		bin, err := buildHarness(os.Args[2], variant == "plain", variant == "race")
+		if err != nil {
+			die(2, "%v", err)
+		}
+		fmt.Println(bin)
+		return
+	}
 	id := os.Args[1]
 	tier := os.Getenv("VERIF_TIER")
 	if tier == "" {
@@ -289,7 +301,7 @@ func main() {
 			cmd := exec.Command(bin, "-prop", id, "-tier", tier, "-shard", strconv.Itoa(i), "-nshard", strconv.Itoa(nsh),
 				"-out", of, "-budget", budget.String())
 			cmd.Dir = work
-			cmd.Env = append(env(), "GOMAXPROCS=2", "GOGC=200", "VERIF_WORK="+work, fmt.Sprintf("VERIF_SEED=%d", seed))
+			cmd.Env = append(env(), "GOMAXPROCS=1", "GOGC=200", "VERIF_WORK="+work, fmt.Sprintf("VERIF_SEED=%d", seed))
 			var buf bytes.Buffer
 			cmd.Stdout, cmd.Stderr = &buf, &buf
 			err := cmd.Run()
